@@ -20,10 +20,13 @@ export CARGO_NET_OFFLINE=true
 # the stage's own cargo invocations must not inherit the monitor's target dir or flags
 unset CARGO_TARGET_DIR RUSTFLAGS CARGO_ENCODED_RUSTFLAGS
 
+. "$HERE/lib.sh"
+# MIRI_CPU: CPU seconds per Miri process (many-seeds runs one thread per core, so this is a total over threads);
+# MIRI_WALL: wall-clock last resort (see lib.sh)
 if [ "$TIER" = "thorough" ]; then
-  SEEDS=256; CONTAINER_OPS=400; MIRI_TIMEOUT=1500
+  SEEDS=256; CONTAINER_OPS=400; MIRI_CPU=24000; MIRI_WALL=18000
 else
-  SEEDS=32; CONTAINER_OPS=120; MIRI_TIMEOUT=240
+  SEEDS=32; CONTAINER_OPS=120; MIRI_CPU=3840; MIRI_WALL=2880
 fi
 [ -n "${VERIF_MIRI_SEEDS:-}" ] && SEEDS="$VERIF_MIRI_SEEDS"
 
@@ -36,13 +39,13 @@ if [ "$miri_available" = 1 ]; then
     cd "$HARNESS/vmiri" || exit 97
     export CARGO_TARGET_DIR="$HARNESS/vmiri/target"
     # build once (a build failure must be told apart from a Miri diagnostic)
-    timeout "$MIRI_TIMEOUT" cargo +nightly miri run --offline --bin c20 -- build-only >"$LOGDIR/miri-build.log" 2>&1
+    budget "$MIRI_CPU" "$MIRI_WALL" cargo +nightly miri run --offline --bin c20 -- build-only >"$LOGDIR/miri-build.log" 2>&1
     echo $? >"$LOGDIR/miri-build.rc"
     MIRIFLAGS="-Zmiri-many-seeds=0..$SEEDS -Zmiri-preemption-rate=0.05" \
-      timeout "$MIRI_TIMEOUT" cargo +nightly miri run --offline --bin c20 -- tags >"$LOGDIR/miri-tags.log" 2>&1
+      budget "$MIRI_CPU" "$MIRI_WALL" cargo +nightly miri run --offline --bin c20 -- tags >"$LOGDIR/miri-tags.log" 2>&1
     echo $? >"$LOGDIR/miri-tags.rc"
     MIRIFLAGS="-Zmiri-many-seeds=0..2" \
-      timeout "$MIRI_TIMEOUT" cargo +nightly miri run --offline --bin c20 -- containers "$CONTAINER_OPS" >"$LOGDIR/miri-containers.log" 2>&1
+      budget "$MIRI_CPU" "$MIRI_WALL" cargo +nightly miri run --offline --bin c20 -- containers "$CONTAINER_OPS" >"$LOGDIR/miri-containers.log" 2>&1
     echo $? >"$LOGDIR/miri-containers.rc"
   )
 fi
@@ -52,22 +55,22 @@ if [ "$TIER" = "thorough" ]; then
   (
     cd "$HARNESS/vtsan" || exit 97
     export CARGO_TARGET_DIR="$HARNESS/vtsan/target"
-    RUSTFLAGS="-Zsanitizer=thread" timeout 900 cargo +nightly build --offline --release -Zbuild-std \
+    RUSTFLAGS="-Zsanitizer=thread" budget 7200 7200 cargo +nightly build --offline --release -Zbuild-std \
       --target x86_64-unknown-linux-gnu --bin c20 >"$LOGDIR/tsan-build.log" 2>&1
     echo $? >"$LOGDIR/tsan-build.rc"
     if [ "$(cat "$LOGDIR/tsan-build.rc")" = 0 ]; then
       BIN="$CARGO_TARGET_DIR/x86_64-unknown-linux-gnu/release/c20"
       for run in 1 2 3; do
         TSAN_OPTIONS="exitcode=66 halt_on_error=0 report_thread_leaks=0" \
-          timeout 600 "$BIN" 64 10000 3 >"$LOGDIR/tsan-run-$run.log" 2>&1
+          budget 9600 4800 "$BIN" 64 10000 3 >"$LOGDIR/tsan-run-$run.log" 2>&1
         echo $? >"$LOGDIR/tsan-run-$run.rc"
       done
       # smaller thread counts, more rounds: different contention pattern
       TSAN_OPTIONS="exitcode=66 halt_on_error=0 report_thread_leaks=0" \
-        timeout 600 "$BIN" 2 100000 5 >"$LOGDIR/tsan-run-4.log" 2>&1
+        budget 9600 4800 "$BIN" 2 100000 5 >"$LOGDIR/tsan-run-4.log" 2>&1
       echo $? >"$LOGDIR/tsan-run-4.rc"
       TSAN_OPTIONS="exitcode=66 halt_on_error=0 report_thread_leaks=0" \
-        timeout 600 "$BIN" 8 30000 5 >"$LOGDIR/tsan-run-5.log" 2>&1
+        budget 9600 4800 "$BIN" 8 30000 5 >"$LOGDIR/tsan-run-5.log" 2>&1
       echo $? >"$LOGDIR/tsan-run-5.rc"
     fi
   )
